@@ -211,6 +211,7 @@ func DecodeFileSR(sr bits.SliceReader, options ...Option) (*File, error) {
 
 	var boxStartPos uint64 = 0
 	lastBoxType := ""
+	srStartPos := sr.GetPos()
 
 	if f.fileDecMode == DecModeLazyMdat {
 		return nil, fmt.Errorf("no support for lazy mdat in DecodeFileSR")
@@ -228,7 +229,7 @@ LoopBoxes:
 		if err != nil {
 			return nil, err
 		}
-		boxType, boxSize := box.Type(), box.Size()
+		boxType := box.Type()
 		switch boxType {
 		case "mdat":
 			if f.isFragmented {
@@ -271,7 +272,9 @@ LoopBoxes:
 		}
 		f.AddChild(box, boxStartPos)
 		lastBoxType = boxType
-		boxStartPos += boxSize
+		// the next box starts where the reader is, which differs from the sum of box.Size()
+		// when a box is re-sized on encoding (e.g. a small box with a 16-byte largesize header)
+		boxStartPos = uint64(sr.GetPos() - srStartPos)
 	}
 	return f, nil
 }
